@@ -2,3 +2,15 @@ chk("C01", "seq", "explicit-state BFS over all operation histories (bounded alph
     "Every history of inserts/overwrites/deletes/empty inserts/oversize inserts/save+reopen/version bumps over all even-length paths on {a,b} up to 4 characters (incl. empty path and all prefix pairs), up to the stated depth, is executed on the real trie on memory, layered and persistent(stand-in) stores; after every operation all lookups and a full iteration are compared with a map model. Exhaustive within the bounds, not a sample.",
     "Bounds: 2-3 path symbols, <=4 path characters, depth 3-5 per sub-run; RocksDB replaced by an in-memory write-log stand-in; small-scope hypothesis for longer paths.",
     "DESIGN.md section 4 C01")
+chk("C02", "seq", "explicit-state BFS over all histories at fixed version; independent canonical-trie hasher as oracle at every state",
+    "At every state reached by any history (overwrites, deletes, delete-then-reinsert, interior-path values, save+reopen) within the bounds, the root equals an independent implementation of the published node-hash format applied to the canonical trie of the model content, every canonical node is stored under its hash with byte-identical encoding, and root<->content is a bijection over all visited states.",
+    "Same bounds as C01; the independent hasher (mc/model/mpt.go) uses x/crypto sha3 directly and shares no code with core/util; collision resistance beyond visited states is not checked.",
+    "DESIGN.md section 4 C02")
+chk("C03", "seq", "explicit-state BFS over event histories of parent/child/sibling tries with deep-fingerprint isolation oracle",
+    "All histories of {open child, child ops, direct parent ops, merge, discard} for 1-3 children over prefix-free and nested path alphabets, on memory and persistent(stand-in) bases: parent deep fingerprint (root, pending changes re-encoded, deletes, every writable-store node re-hashed) unchanged by child ops/discard/rejected merge; accepted merge publishes exactly the child's view; stale merges rejected.",
+    "Bounds: <=3 children x <=3 ops, depth 5-7, 5-7 paths; views of stale children are not judged.",
+    "DESIGN.md section 4 C03")
+chk("C14", "seq", "explicit-state BFS with per-state store oracle (key == hash, encode/decode round trip) over adversarial value/version alphabets",
+    "At every state of every explored history, every node in every store level (memory map, layered current/previous, persistent stand-in via Iterate) is filed under GetHashBytes() of its content; CreateNode(Encode(n)) has equal hash and encoding; a trie re-read from the store references each node by its recomputed hash. Values contain separators, NUL, 0xff, msgpack-looking bytes; versions -1, 0, 1, 2^40 with bumps.",
+    "Bounds as C01 with 2-6 adversarial values; the full byte range of values is not enumerated.",
+    "DESIGN.md section 4 C14")
